@@ -464,7 +464,7 @@ class TimedTokenCooccurrenceVectorizer(BaseCooccurrenceVectorizer):
         for doc in token_sequences:
             seq = np.array([pair[1] for pair in doc])
             self.delta_mean_ += np.sum(seq[1:] - seq[:-1])
-            total_t += len(seq) - 1
+            total_t += max(len(seq) - 1, 0)
         if total_t == 0:
             total_t = 1
         self.delta_mean_ /= total_t
